@@ -647,7 +647,7 @@ func registerBinaryIntrinsics(reg regFn) {
 		if w.t == nil {
 			panic(targetPanic{runtime: "nil io.Writer", site: site})
 		}
-		m := in.prog.LookupMethod(w.t, nil, "Write")
+		m := in.findMethod(w.t, "Write")
 		res := in.callFunction(fr, m, []Value{w.v, out}, nil, site).(TupleV)
 		return res[1]
 	})
